@@ -136,6 +136,7 @@ void standards_and_apply(Ctx &c) {
     static const LC base[3] = {LC(-0.9L, 0.1L), LC(0.85L, -0.2L), LC(0.05L, 0.1L)};
     int accepted = 0; bool deferred_bad = false;
     std::vector<Rat> truth;
+    std::vector<std::pair<double, double>> accepted_grids;
     for (int k = 0; k < 3; k++) {
         int scen = c.weighted({5, 2, 2, 1});       // 0 cover, 1 low shortfall, 2 high shortfall, 3 both
         int n = 2 + (int)c.draw(8);
@@ -168,11 +169,11 @@ void standards_and_apply(Ctx &c) {
                 continue;
             }
             PBT_CHECK(c, rc == 0, "C10.cover_refused", "vector standard covering [%g, %g] refused for calibration band [%g, %g]: %s", glo, ghi, lo, hi, vc.log.text().c_str());
-            truth.push_back(rk); accepted++;
+            truth.push_back(rk); accepted++; accepted_grids.push_back({grid.front(), grid.back()});
         } else {
             PBT_CHECK(c, rc == 0, "C10.add_before_grid_refused", "add before set_frequency_vector refused: %s", vc.log.text().c_str());
             if (must_refuse) deferred_bad = true;
-            truth.push_back(rk); accepted++;
+            truth.push_back(rk); accepted++; accepted_grids.push_back({grid.front(), grid.back()});
         }
     }
     if (!set_first) {
@@ -189,6 +190,30 @@ void standards_and_apply(Ctx &c) {
     PBT_CHECK(c, rc == 0, "C10.solve_failed", "solve failed: %s", vc.log.text().c_str());
     int ci = vnacal_add_calibration(vc.p, "c", vnp); ci = vnacal_find_calibration(vc.p, "c");
     PBT_CHECK(c, ci >= 0, "C10.add_calibration", "add_calibration failed");
+    // REPLACING the frequency vector: the standards collected so far are judged against the new band -- one that
+    // some accepted vector standard misses by >= 5 % must be refused (and leave the old band in force), one that all
+    // of them still cover must be accepted
+    if (c.chance(1, 2)) {
+        double slo = 0, shi = 1e300;      // band covered by every accepted vector standard
+        for (auto &gr : accepted_grids) { slo = std::max(slo, gr.first); shi = std::min(shi, gr.second); }
+        int how = (int)c.draw(3);         // 0: still covered, 1: misses at the low end, 2: misses at the high end
+        double nlo, nhi;
+        if (how == 0) { nlo = std::max(slo, lo) * (1 + 0.02 * c.unit()); nhi = std::min(shi, hi) * (1 - 0.02 * c.unit()); if (nhi <= nlo * 1.001) { nlo = lo; nhi = hi; } }
+        else if (how == 1) { nlo = slo * (0.3 + 0.65 * c.unit()); nhi = std::min(shi, hi); }
+        else { nlo = std::max(slo, lo); nhi = shi * (1.05 + c.unit()); }
+        std::vector<double> cal2 = gen_grid(c, F, nlo, nhi);
+        vc.log.clear(); errno = 0;
+        int r2 = vnacal_new_set_frequency_vector(vnp, cal2.data()); int e2 = errno;
+        c.note("replace the frequency vector: new band [%g, %g], standards cover [%g, %g] -> rc %d", nlo, nhi, slo, shi, r2);
+        if (how == 0) { c.label("regrid:still-covered"); PBT_CHECK(c, r2 == 0, "C10.cover_refused", "replacing the frequency vector by a band [%g, %g] that every standard covers ([%g, %g]) refused: %s", nlo, nhi, slo, shi, vc.log.text().c_str()); }
+        else {
+            c.label(how == 1 ? "regrid:low-end-shortfall" : "regrid:high-end-shortfall");
+            PBT_CHECK(c, r2 == -1 && e2 == EINVAL, "C10.shortfall_accepted", "replacing the frequency vector by a band [%g, %g] that an already added vector standard (cover [%g, %g]) misses by >= 5%% was accepted (rc %d errno %d)", nlo, nhi, slo, shi, r2, e2);
+            vc.log.clear();
+            PBT_CHECK(c, vnacal_new_solve(vnp) == 0, "C10.refused_regrid_changed_object", "after the refused replacement the calibration no longer solves: %s", vc.log.text().c_str());
+        }
+        c.nontrivial();
+    }
     vnacal_new_free(vnp);
     // ---- C. apply: in-range (on and off grid) accepted and exact for a frequency-independent error box;
     //         out of range by >= 5 % refused
